@@ -219,6 +219,14 @@ func (c *Ctx) traceStmt(t *fsTrace, info *types.Info, fd *ast.FuncDecl, tp types
 			c.traceExprs(t, info, fd, tp, x.Init, depth)
 		}
 		c.traceExprs(t, info, fd, tp, &ast.ExprStmt{X: x.Cond}, depth)
+		// single-exit style: the schedule is the sequence of events on the way on which nothing fails. A branch
+		// without events that only raises the function's error (or returns) is off that way, and a guard on the
+		// error itself (`if err == nil { ... }`) is on it.
+		if evIdx, sub := c.successBranch(info, fd, tp, x, t, depth); evIdx >= 0 {
+			t.bad = append(t.bad, sub.bad...)
+			t.items = append(t.items, sub.items...)
+			return
+		}
 		for _, br := range []ast.Stmt{x.Body, x.Else} {
 			if br == nil {
 				continue
@@ -349,6 +357,27 @@ func (c *Ctx) traceCall(t *fsTrace, info *types.Info, fd *ast.FuncDecl, tp types
 // "round" (ic.numRounds / len(proof.L|R)), else "other:<expr>".
 func (c *Ctx) boundClass(info *types.Info, fd *ast.FuncDecl, cond ast.Expr, rangeX ast.Expr) string {
 	var bound ast.Expr
+	// `err == nil && i < n` (or the other way round): the loop of a single-exit function stops early on failure;
+	// on the way on which nothing fails its bound is the other conjunct
+	if be, ok := cond.(*ast.BinaryExpr); ok && be.Op == token.LAND {
+		if fv := failVarOf(info, fd); fv != nil {
+			isGuard := func(e ast.Expr) bool {
+				g, ok := ast.Unparen(e).(*ast.BinaryExpr)
+				if !ok || g.Op != token.EQL {
+					return false
+				}
+				x, xok := g.X.(*ast.Ident)
+				y, yok := g.Y.(*ast.Ident)
+				return xok && yok && ((info.Uses[x] == fv && y.Name == "nil") || (info.Uses[y] == fv && x.Name == "nil"))
+			}
+			switch {
+			case isGuard(be.X):
+				cond = ast.Unparen(be.Y)
+			case isGuard(be.Y):
+				cond = ast.Unparen(be.X)
+			}
+		}
+	}
 	if rangeX != nil {
 		bound = &ast.CallExpr{Fun: ast.NewIdent("len"), Args: []ast.Expr{rangeX}}
 	} else if be, ok := cond.(*ast.BinaryExpr); ok && (be.Op == token.LSS || be.Op == token.NEQ) {
@@ -565,10 +594,11 @@ func singleDef(info *types.Info, fd *ast.FuncDecl, o types.Object) ast.Expr {
 		case *ast.ValueSpec:
 			for i, id := range s.Names {
 				if info.Defs[id] == o {
-					n++
 					if i < len(s.Values) {
+						n++
 						rhs = s.Values[i]
 					}
+					// a bare `var x T` only declares; the one assignment that follows defines
 				}
 			}
 		case *ast.IncDecStmt:
@@ -663,4 +693,147 @@ func contains(s []string, x string) bool {
 		}
 	}
 	return false
+}
+
+// failVarOf: the error variable a single-exit function returns at its end — the identifier at an error-typed
+// position of the final return (or the named error result of a bare return) — provided the function never assigns
+// nil to it (once raised it stays raised).
+func failVarOf(info *types.Info, fd *ast.FuncDecl) types.Object {
+	if fd == nil || fd.Body == nil || len(fd.Body.List) == 0 {
+		return nil
+	}
+	ret, ok := fd.Body.List[len(fd.Body.List)-1].(*ast.ReturnStmt)
+	if !ok {
+		return nil
+	}
+	var fv types.Object
+	isErr := func(t types.Type) bool { return t != nil && t.String() == "error" }
+	if len(ret.Results) == 0 {
+		if fd.Type.Results != nil {
+			for _, f := range fd.Type.Results.List {
+				for _, n := range f.Names {
+					if o := info.Defs[n]; o != nil && isErr(o.Type()) {
+						fv = o
+					}
+				}
+			}
+		}
+	} else {
+		for _, r := range ret.Results {
+			if id, isId := r.(*ast.Ident); isId {
+				if o := info.Uses[id]; o != nil && isErr(o.Type()) {
+					if _, isVar := o.(*types.Var); isVar {
+						fv = o
+					}
+				}
+			}
+		}
+	}
+	if fv == nil {
+		return nil
+	}
+	reset := false
+	ast.Inspect(fd.Body, func(n ast.Node) bool {
+		as, ok := n.(*ast.AssignStmt)
+		if !ok {
+			return true
+		}
+		for i, l := range as.Lhs {
+			id, isId := l.(*ast.Ident)
+			if !isId || (info.Uses[id] != fv && info.Defs[id] != fv) || i >= len(as.Rhs) || len(as.Lhs) != len(as.Rhs) {
+				continue
+			}
+			if rid, isRid := as.Rhs[i].(*ast.Ident); isRid && rid.Name == "nil" {
+				reset = true
+			}
+		}
+		return true
+	})
+	if reset {
+		return nil
+	}
+	return fv
+}
+
+// raisesOnly: the statement (a branch without transcript events) ends by leaving the function or by raising fv
+// with a freshly constructed error; an if/else chain does when all its branches do.
+func raisesOnly(info *types.Info, s ast.Stmt, fv types.Object) bool {
+	switch x := s.(type) {
+	case *ast.BlockStmt:
+		if len(x.List) == 0 {
+			return false
+		}
+		return raisesOnly(info, x.List[len(x.List)-1], fv)
+	case *ast.ReturnStmt:
+		return true
+	case *ast.ExprStmt:
+		if call, ok := x.X.(*ast.CallExpr); ok {
+			if id, ok := call.Fun.(*ast.Ident); ok && id.Name == "panic" {
+				return true
+			}
+		}
+	case *ast.AssignStmt:
+		if fv == nil || len(x.Lhs) != 1 || len(x.Rhs) != 1 || x.Tok != token.ASSIGN {
+			return false
+		}
+		id, isId := x.Lhs[0].(*ast.Ident)
+		if !isId || info.Uses[id] != fv {
+			return false
+		}
+		call, isCall := x.Rhs[0].(*ast.CallExpr)
+		if !isCall {
+			return false
+		}
+		if sel, isSel := call.Fun.(*ast.SelectorExpr); isSel {
+			if pk, isPk := sel.X.(*ast.Ident); isPk {
+				return (pk.Name == "errors" && sel.Sel.Name == "New") || (pk.Name == "fmt" && sel.Sel.Name == "Errorf")
+			}
+		}
+	case *ast.IfStmt:
+		return x.Else != nil && raisesOnly(info, x.Body, fv) && raisesOnly(info, x.Else, fv)
+	}
+	return false
+}
+
+// successBranch: when exactly one branch of the if has transcript events and the other cannot lie on a successful
+// run, returns that branch's trace (index 0 = body, 1 = else); otherwise -1.
+func (c *Ctx) successBranch(info *types.Info, fd *ast.FuncDecl, tp types.Object, x *ast.IfStmt, t *fsTrace, depth int) (int, *fsTrace) {
+	brs := []ast.Stmt{x.Body, x.Else}
+	var subs [2]*fsTrace
+	for i, br := range brs {
+		subs[i] = &fsTrace{sites: t.sites}
+		if br != nil {
+			c.traceStmt(subs[i], info, fd, tp, br, depth)
+		}
+	}
+	ev0, ev1 := len(subs[0].items) > 0, len(subs[1].items) > 0
+	if ev0 == ev1 {
+		return -1, nil
+	}
+	evIdx := 1
+	if ev0 {
+		evIdx = 0
+	}
+	fv := failVarOf(info, fd)
+	// guard on the error itself
+	if fv != nil && x.Init == nil {
+		if be, ok := x.Cond.(*ast.BinaryExpr); ok && (be.Op == token.EQL || be.Op == token.NEQ) {
+			var other ast.Expr
+			if id, isId := be.X.(*ast.Ident); isId && info.Uses[id] == fv {
+				other = be.Y
+			} else if id, isId := be.Y.(*ast.Ident); isId && info.Uses[id] == fv {
+				other = be.X
+			}
+			if oid, isId := other.(*ast.Ident); isId && oid.Name == "nil" {
+				if (be.Op == token.EQL) == (evIdx == 0) {
+					return evIdx, subs[evIdx]
+				}
+			}
+		}
+	}
+	// the other branch only raises or returns
+	if other := brs[1-evIdx]; other != nil && raisesOnly(info, other, fv) {
+		return evIdx, subs[evIdx]
+	}
+	return -1, nil
 }
